@@ -4,8 +4,8 @@ import "bytes"
 
 // ---- C03: literal text is copied verbatim; only trim markers and comments remove bytes ----
 
-var c03LeftC = []string{"{*", "[*", "<#", "{*", "<#"}
-var c03RightC = []string{"*}", "*]", "#>", "*}", "#>"}
+var c03LeftC = []string{"{*", "[*", "<#", "{*", "<#", "{*", "<!--"}
+var c03RightC = []string{"*}", "*]", "#>", "*}", "#>", "*}", "-->"}
 
 func c03IsWS(b byte) bool { return b == ' ' || b == '\t' || b == '\r' || b == '\n' }
 
@@ -53,7 +53,11 @@ func c03Render(set *Set, src string) (string, error) {
 //
 //gosym:reach plain,ltrim,rtrim,both,comment
 func H_C03_text() {
-	cfg := ndChoice("cfg", 5)
+	cfgs := []int{0, 1, 5, 6} // quick: default, "[[ ]]"+"[* *]", "<%= %>", "${ }"+"<!-- -->"
+	if vfTier() == 1 {
+		cfgs = []int{0, 1, 2, 3, 4, 5, 6}
+	}
+	cfg := cfgs[ndChoice("cfg", len(cfgs))]
 	form := ndChoice("form", 5)
 	// quick: 2 bytes on each side with the default delimiters, 1 byte with custom ones;
 	// thorough: 2 bytes everywhere
@@ -86,7 +90,15 @@ func H_C03_text() {
 		w1, w2 = c03TrimRight(t1), c03TrimLeft(t2)
 	default:
 		vfReach("comment")
-		a = c03LeftC[cfg] + " c " + c03RightC[cfg]
+		// the comment body is symbolic too; it only must not contain the closing marker
+		// (the first closing marker after the opening one ends the comment)
+		body := ndName("cbody", 2)
+		rc := c03RightC[cfg]
+		closed := body + rc
+		for i := 0; i < len(body); i++ {
+			vfAssume(closed[i:i+len(rc)] != rc)
+		}
+		a = c03LeftC[cfg] + body + rc
 		mid = ""
 	}
 	out, err := c03Render(c02Set(cfg), t1+a+t2)
